@@ -676,18 +676,18 @@ size_t derTBITDec(octet* val, size_t* len, const octet der[], size_t count,
 	// биты дополнения в несуществующем октете?
 	if (l < 1 || v[0] > 7 || v[0] != 0 && l == 1) 
 		return SIZE_MAX;
+	// возвратить битовую длину (до val: val и der могут пересекаться)
+	if (len)
+	{
+		ASSERT(memIsValid(len, O_PER_S));
+		*len = (l - 1) * 8 - v[0];
+	}
 	// возвратить строку
 	if (val)
 	{
 		ASSERT(memIsValid(val, l - 1));
 		ASSERT(len == 0 || memIsDisjoint2(len, O_PER_S, val, l - 1));
 		memMove(val, v + 1, l - 1);
-	}
-	// возвратить битовую длину
-	if (len)
-	{
-		ASSERT(memIsValid(len, O_PER_S));
-		*len = (l - 1) * 8 - v[0];
 	}
 	return count;
 }
